@@ -91,12 +91,16 @@ PRss(a, j, rss, r2gap) ==
   /\ prev' = [prev EXCEPT ![j] = rss] /\ lastA' = [lastA EXCEPT ![j] = a]
   /\ UNCHANGED <<ny, nlv, phase, nobj, nvar, xsc, ysc, k, colsSeen, residSeen, floorRss>>
 
-\* rssOls = RSS of the independent least-squares fit (LAPACK dgels), same units; err = |PLS fitted - OLS fitted| (relative)
-POls(j, rssOls, err, full) ==
-  /\ phase = "fit" /\ j \in Resp /\ lastA[j] >= 1
-  /\ full = (IF nlv = nvar /\ lastA[j] = nlv THEN 1 ELSE 0)
-  /\ rssOls >= 0 /\ prev[j] >= rssOls - TolMono                       \* no PLS model beats the least-squares optimum
-  /\ (full = 1 => err <= TolAlg /\ Abs(prev[j] - rssOls) <= TolMono)  \* a = rank: PLS is OLS
+\* rssOls = RSS of the independent least-squares fit (LAPACK dgels), rssPls = RSS of the model with all its nlv LVs, same units;
+\* err = |PLS fitted - OLS fitted| (relative).  The event is self-contained (a rejected and dropped Rss event must not make it fail);
+\* where the ledger holds the last LV of this response the two numbers must be the same.
+POls(j, rssPls, rssOls, err, full) ==
+  /\ phase = "fit" /\ j \in Resp
+  /\ full = (IF nlv = nvar THEN 1 ELSE 0)
+  /\ (lastA[j] = nlv => rssPls = prev[j])
+  /\ rssOls >= 0 /\ rssPls >= rssOls - TolMono                        \* no PLS model beats the least-squares optimum
+  /\ prev[j] >= rssOls - TolMono
+  /\ (full = 1 => err <= TolAlg /\ Abs(rssPls - rssOls) <= TolMono)   \* a = rank: PLS is OLS
   /\ floorRss' = [floorRss EXCEPT ![j] = rssOls]
   /\ UNCHANGED <<ny, nlv, phase, nobj, nvar, xsc, ysc, k, colsSeen, residSeen, prev, lastA>>
 
@@ -133,7 +137,7 @@ MNextStruct ==
 MNextLS ==
   \/ MFit
   \/ \E a \in 1..2, j \in 0..1, r \in RssVals, e \in ErrVals : PRss(a, j, r, e)
-  \/ \E j \in 0..1, r \in RssVals, e \in ErrVals, f \in 0..1 : POls(j, r, e, f)
+  \/ \E j \in 0..1, r \in RssVals, q \in RssVals, e \in ErrVals, f \in 0..1 : POls(j, q, r, e, f)
   \/ \E a \in 1..2, e \in ErrVals : PBeta(a, e, 0) \/ PBeta(a, 0, e)
   \/ \E e \in ErrVals : PAffine(2000, 0 - 500, e, 0) \/ PAffine(2000, 0 - 500, 0, e)
   \/ \E a \in 1..2, j \in 0..1, e \in ErrVals : PStat(a, j, e, 0) \/ PStat(a, j, 0, e)
